@@ -306,11 +306,28 @@ def _is_stdin_site(c: ast.Call) -> bool:
     return False
 
 
-def check_consumers(ctx: Ctx) -> None:
-    """Each switch guards exactly its consumer."""
+def _consumer_sites(ctx: Ctx, fi: FuncInfo, opt: str, callee_q: str, depth: int = 0):
+    """Call sites of the consumer in fi, or in a helper that receives fi's `opt` unchanged under the same name."""
+    prog = ctx.prog
+    flow = prog.flow(fi)
+    sites = [(fi, n, c) for n, c in flow.all_calls() if call_name(prog, fi, c) == callee_q]
+    if sites or depth >= 2:
+        return sites
+    for n, c in flow.all_calls():
+        t = prog.resolve_call(fi, c)
+        if isinstance(t, list) and not isinstance(t[0].node, ast.Lambda) and opt in t[0].params and t[0].cls is None:
+            b = bind_call(t[0], c)
+            e = b.get(opt)
+            if e is not None and origins(prog, fi, e, n) == frozenset({("param", opt)}):
+                sites += _consumer_sites(ctx, t[0], opt, callee_q, depth + 1)
+    return sites
+
+
+def check_consumers(ctx: Ctx, options: tuple[str, ...] | None = None) -> None:
+    """Each switch guards exactly its consumer (in the entry function or in a helper the option is handed to)."""
     repo, prog = ctx.repo, ctx.prog
     table = [
-        # (function, option, label, callee predicate, description, extra-arg check)
+        # (function, option, label, consumer, rewriter that must be passed)
         ("flowmark.reformat_api:reformat_text", "plaintext", "T", "flowmark.linewrapping.text_filling:fill_text", None),
         ("flowmark.reformat_api:reformat_text", "plaintext", "F", "flowmark.linewrapping.markdown_filling:fill_markdown", None),
         ("flowmark.linewrapping.markdown_filling:fill_markdown", "semantic", "T", "flowmark.linewrapping.line_wrappers:line_wrap_by_sentence", None),
@@ -322,14 +339,16 @@ def check_consumers(ctx: Ctx) -> None:
          "flowmark.typography.ellipses:ellipses"),
     ]
     for fq, opt, label, callee_q, fn_arg in table:
-        fi = repo.func(fq)
-        flow = prog.flow(fi)
-        sites = [(n, c) for n, c in flow.all_calls() if call_name(prog, fi, c) == callee_q]
+        if options is not None and opt not in options:
+            continue
+        entry = repo.func(fq)
+        sites = _consumer_sites(ctx, entry, opt, callee_q)
         key = f"{fq} :: {opt}[{label}] guards {callee_q.split(':')[1]}"
         if not sites:
-            ctx.ob("R-CONSUMER", key, False, f"no call to {callee_q} in {fq}: option `{opt}` has lost its consumer", where(fi, fi.node))
+            ctx.ob("R-CONSUMER", key, False, f"no call to {callee_q} reachable from {fq} with `{opt}` in scope: the option has lost its consumer",
+                   where(entry, entry.node))
             continue
-        for n, c in sites:
+        for fi, n, c in sites:
             guards = direct_guards(prog, fi, n)
             mine = [g for g in guards if g[2] == frozenset({("param", opt)}) or g[2] == frozenset({("not", ("param", opt))})]
             ok = False
@@ -347,14 +366,13 @@ def check_consumers(ctx: Ctx) -> None:
                 resolved = {ctx.repo.dotted_name(a, fi.module, fi) for a in vals if isinstance(a, (ast.Name, ast.Attribute))}
                 ctx.ob("R-CONSUMER", key + " (rewriter)", fn_arg in resolved,
                        f"the rewrite function passed must be {fn_arg}; passed: {sorted(x for x in resolved if x)}", where(fi, c))
-        # the consumer must not be called anywhere else in the function outside that guard (covered by the loop above)
-    # is_markdown=True at both wrapper factory calls of fill_markdown, width threaded to both
-    fi = repo.func("flowmark.linewrapping.markdown_filling:fill_markdown")
-    flow = prog.flow(fi)
-    for n, c in flow.all_calls():
-        name = call_name(prog, fi, c)
-        if name in ("flowmark.linewrapping.line_wrappers:line_wrap_by_sentence", "flowmark.linewrapping.line_wrappers:line_wrap_to_width"):
-            callee = repo.func(name)
+    if options is not None and "semantic" not in options:
+        return
+    # is_markdown=True at both wrapper factory calls of the Markdown path
+    fm_entry = repo.func("flowmark.linewrapping.markdown_filling:fill_markdown")
+    for name in ("flowmark.linewrapping.line_wrappers:line_wrap_by_sentence", "flowmark.linewrapping.line_wrappers:line_wrap_to_width"):
+        callee = repo.func(name)
+        for fi, n, c in _consumer_sites(ctx, fm_entry, "semantic", name):
             b = bind_call(callee, c)
             im = b.get("is_markdown")
             ctx.ob("R-CONSUMER", f"{fi.qual} -> {name} :: is_markdown", isinstance(im, ast.Constant) and im.value is True,
